@@ -78,7 +78,7 @@ def replay(case, stats):
 def run(ctx):
     q = ctx.quick
     ctx.units("golden-asts", unit_golden, [{}])
-    ctx.units("model-documents", unit_model, [{"n": 800 if q else 8000, "seed": ctx.seed, "shard": i} for i in range(4 if q else 16)], procs=16)
+    ctx.units("model-documents", unit_model, [{"n": 1200 if q else 8000, "seed": ctx.seed, "shard": i} for i in range(8 if q else 16)], procs=16)
     try:
         from . import c03_noisy
         c03_noisy.run_noisy(ctx)
